@@ -324,11 +324,56 @@ class PathResult:
         self.extra = {}
 
 
-def explore(run, max_paths=200000, timeout_ms=10000):
+def explore(run, max_paths=200000, timeout_ms=10000, part=None, frontier=1200):
     """run(ctx) -> PathResult fields set by the callee via return dict(outcome=..., ...).
-    Yields PathResult for every feasible path of the unit (depth-first over decision prefixes)."""
+    Yields PathResult for every feasible path of the unit (depth-first over decision prefixes).
+
+    part=(i, n): this call explores the i-th of n disjoint parts of the unit's decision tree, so that one big unit can be
+    spread over n pool tasks.  Phase 1 (identical in every part, deterministic): expand the pending prefix expected to
+    head the LARGEST subtree (estimate: the number of forking decisions its sibling path took after the branching point)
+    until at least ``frontier`` subtrees are pending; the paths completed in phase 1 belong to part 0.  Phase 2: the
+    pending subtrees are dealt to the parts by estimated size (largest first, to the lightest part); part i explores its
+    share depth-first.  The parts are disjoint and their union is the whole tree (every path is either completed in
+    phase 1 or lies below exactly one pending prefix) - the estimate only affects the balance."""
     work = [[]]
     n = 0
+    if part is not None:
+        i_part, n_parts = part
+        weight = {0: 0}          # id(prefix list) is not stable: key by position in ``work`` through a parallel list
+        wts = [0]
+        while work and len(work) < frontier:
+            k = max(range(len(work)), key=lambda j: (wts[j], -j))
+            prefix = work.pop(k)
+            wts.pop(k)
+            ctx = Ctx(prefix, timeout_ms=timeout_ms)
+            set_ctx(ctx)
+            sym.clear_inputs()
+            r = PathResult()
+            r.ctx = ctx
+            try:
+                run(ctx, r)
+            except Infeasible:
+                r.outcome = 'infeasible'
+            except EngineLimit as e:
+                r.outcome = 'limit'
+                r.limit = str(e)
+            alts = ctx.alternatives()
+            forks = [j for j in range(len(prefix), len(ctx.trace)) if ctx.trace[j][1]]
+            for a in alts:
+                work.append(a)
+                wts.append(sum(1 for j in forks if j >= len(a)))      # forking decisions the sibling took after the branching point
+            n += 1
+            if i_part == 0:
+                yield r
+        order = sorted(range(len(work)), key=lambda j: (-wts[j], j))
+        load = [0] * n_parts
+        mine = []
+        for j in order:
+            p = min(range(n_parts), key=lambda q: (load[q], q))
+            load[p] += 2 ** min(wts[j], 40)
+            if p == i_part:
+                mine.append(work[j])
+        work = list(reversed(mine))
     while work:
         prefix = work.pop()
         ctx = Ctx(prefix, timeout_ms=timeout_ms)
